@@ -90,12 +90,19 @@ Definition trig_nested (c : lcd_cfg) (d : doc) : bool :=
   end.
 Definition trig_timeline (c : lcd_cfg) (d : doc) : bool := trig_end_zero d || trig_nested c d.
 
+(* the whitelist with tts:position tolerated outside region roots (what the finding lcd-position-survives excuses) *)
+Definition whitelist_but_position_b (c : lcd_cfg) (d' : doc) : bool :=
+  let ok kv := allowed_b (c_pta c) (c_color c) (c_bg c) kv || (fst kv =? p_Position) in
+  forallb (fun r => forallb (allowed_b (c_pta c) (c_color c) (c_bg c)) (e_styles (eattrs r)) &&
+                    forallb (fun a => forallb ok (e_styles a)) (flat_map elems_of (echildren r))) (d_regions d') &&
+  forallb (fun a => forallb ok (e_styles a)) (body_attrs d') && forallb ok (d_initials d').
+
 (* ---- case evaluation ---------------------------------------------------------------------------------------- *)
 Definition on_ok (py : res doc) (f : doc -> bool) : bool := match py with Ok d' => f d' | Err _ => true end.
 (* static clauses of S on the implementation's result; excused = the finding's trigger *)
 Definition case_static (c : lcd_cfg) (d : doc) (py : res doc) : list bool :=
   [ on_ok py no_anim_b;
-    on_ok py (whitelist_b (c_pta c) (c_color c) (c_bg c)) || trig_position_content d;
+    on_ok py (whitelist_b (c_pta c) (c_color c) (c_bg c)) || (trig_position_content d && on_ok py (whitelist_but_position_b c));
     on_ok py (safe_area_b (c_sa c));
     on_ok py (merged_b d);
     on_ok py (fun d' => refs_resolved_b d' && redirected_b true d d') || trig_end_zero d;
